@@ -130,7 +130,7 @@ holds, `ext`), the collection keeps the invariant and the counts exact, only rem
 (never creates or changes one), keeps every node the user holds, leaves — when called
 without `roots` — only nodes with a positive count, keeps the meaning of every surviving
 reference, and empties the computed table -/
-theorem C15_gc_spec (m : MddMgr) (ext : Nat → Nat) (h : MInv m) (hx : RefExact m ext)
+theorem C15_gc_spec (m : MddMgr) (ext : Nat → Nat) (h : MInv m) (hx : MRefExact m ext)
     (roots : Option (List Int)) (m' : MddMgr) (hr : mCollectGarbage roots m = (.ok (), m')) :
     GcOK m ext roots.isNone m' :=
   mddGc_spec m ext h hx roots m' hr
@@ -138,7 +138,7 @@ theorem C15_gc_spec (m : MddMgr) (ext : Nat → Nat) (h : MInv m) (hx : RefExact
 /-! ### `bdd_to_mdd` -/
 
 /-- BDD denotation by variable NAME (levels change when `bdd_to_mdd` reorders) -/
-def denName (t : Tbl) (u : Int) (β : String → Bool) : Bool :=
+def denByName (t : Tbl) (u : Int) (β : String → Bool) : Bool :=
   den t u (fun lvl => match t.l2v[lvl]? with
     | some v => β v
     | none => false)
@@ -186,11 +186,11 @@ def bddToMdd_statement : Prop :=
     (∀ (u : Nat) (r : Int), out.umap.lookup u = some r →
       mb'.tbl.Mem (u : Int) ∧ out.mdd.tbl.Mem r ∧
       ∀ (s : Int), s.natAbs = u → ∀ α, MValid out.mdd.tbl α →
-        denM out.mdd.tbl (flip r s) α = denName mb'.tbl s (bitsOfInts dvars α)) ∧
+        denM out.mdd.tbl (flip r s) α = denByName mb'.tbl s (bitsOfInts dvars α)) ∧
     (∀ u, mb'.tbl.Mem ((u : Nat) : Int) → BddHeld mb' u → (out.umap.lookup u).isSome = true) ∧
     (∀ u, mb.tbl.Mem ((u : Nat) : Int) → BddHeld mb u →
       mb'.tbl.Mem ((u : Nat) : Int) ∧ BddHeld mb' u ∧
-      ∀ (s : Int), s.natAbs = u → ∀ β, denName mb'.tbl s β = denName mb.tbl s β)
+      ∀ (s : Int), s.natAbs = u → ∀ β, denByName mb'.tbl s β = denByName mb.tbl s β)
 
 /-- C15, conversion part, the half that is proved: the main loop of `bdd_to_mdd`
 (`b2mLoop`: per kept BDD node, `cofactor` per integer value, edges mapped through `umap`,
@@ -199,7 +199,7 @@ entries denote the intended function `S u` — for ANY intended semantics `S` of
 as functions of integer assignments — provided the BDD side delivers, at every iteration,
 `BddSideOK`: the `i`-th successor is the `umap` image of a reference in a later zone that
 agrees with `u` where the integer variable equals `i`.  (Discharging that hypothesis for
-`S u α = denName mb u (bitsOfInts dvars α)` needs the specifications of `reorder` and
+`S u α = denByName mb u (bitsOfInts dvars α)` needs the specifications of `reorder` and
 `cofactor` on the BDD side: C07/C04.) -/
 theorem C15_bddToMdd_partial (S : Int → MAsg → Bool) (L : Nat → Nat)
     (hSneg : ∀ x α, x ≠ 0 → S (-x) α = !S x α)
@@ -289,7 +289,7 @@ below the level (documented precondition), `ite`/`apply` on nodes of the manager
 and for any recorded `_free.pop()` schedule — satisfies the invariant, and every stored count
 is exactly in-degree + number of references the user holds -/
 theorem C15_reachable_inv (dv : List MVar) (m : MddMgr) (ext : Nat → Nat) (h : MReach dv m ext) :
-    MInv m ∧ RefExact m ext ∧ m.tbl.vars = dv :=
+    MInv m ∧ MRefExact m ext ∧ m.tbl.vars = dv :=
   h.inv
 
 /-- in every reachable state, equal functions ⇔ equal references -/
@@ -371,12 +371,12 @@ theorem r3 : MReach dv s3.2 (fun _ => 0) :=
   MReach.foa 0 [-1, 2, 1] (-4) _ r2 (by decide) e3
 theorem r4 : MReach dv s4.2 (fun _ => 0) :=
   MReach.ite 3 (-4) (-2) (-5) _ r3 (by decide) (by decide) (by decide) e4
-theorem r5 : MReach dv s5.2 (extInc (fun _ => 0) 3) :=
+theorem r5 : MReach dv s5.2 (mExtInc (fun _ => 0) 3) :=
   MReach.incref 3 _ r4 (by decide) e5
-theorem r6 : MReach dv s6.2 (extInc (fun _ => 0) 3) :=
+theorem r6 : MReach dv s6.2 (mExtInc (fun _ => 0) 3) :=
   MReach.apply "xor" .xor 3 (some (-4)) none 6 _ r5 (by decide) e6
 theorem rg1 : MReach dv g1.2 (fun _ => 0) := MReach.gc none _ r1 eg1
-theorem rh1 : MReach dv h1.2 (extInc (fun _ => 0) (-2)) := MReach.incref (-2) _ r1 (by decide) eh1
+theorem rh1 : MReach dv h1.2 (mExtInc (fun _ => 0) (-2)) := MReach.incref (-2) _ r1 (by decide) eh1
 
 /-- every variable has a value -/
 theorem hpos (m : MddMgr) (hv : m.tbl.vars = dv) : ∀ i, i < m.tbl.nvars → 0 < m.tbl.arity i := by
@@ -395,7 +395,7 @@ example (dv : List MVar) : MInv (MddMgr.new (some dv)) := MInv.init dv
 open C15Ex in
 /-- the hypotheses of the `find_or_add` / `ite` / `apply` / canonicity / structure theorems hold in
 a manager with shared sub-nodes, a complemented edge, a warm computed table and a held node -/
-example : MInv s6.2 ∧ RefExact s6.2 (extInc (fun _ => 0) 3) ∧
+example : MInv s6.2 ∧ MRefExact s6.2 (mExtInc (fun _ => 0) 3) ∧
     s6.2.tbl.node? 3 = some ⟨0, [2, 1, -1]⟩ ∧ s6.2.tbl.node? 4 = some ⟨0, [1, -2, -1]⟩ ∧
     s6.2.cache[iteKey 3 (-4) (-2)]? = some (-5) ∧ s6.2.ref[3]? = some 1 ∧
     (∀ i, i < s6.2.tbl.nvars → 0 < s6.2.tbl.arity i) :=
@@ -424,7 +424,7 @@ is re-used by the next `find_or_add`; the held node 2 stays -/
 example : MReach dv s1.2 (fun _ => 0) ∧ mCollectGarbage none s1.2 = (.ok (), g1.2) ∧
     (s1.2.tbl.node? 2).isSome = true ∧ g1.2.tbl.node? 2 = none ∧ g1.2.free = [2] ∧
     g2.2.tbl.node? 2 = some ⟨1, [1, -1]⟩ ∧ g2.2.free = [] ∧
-    MReach dv h1.2 (extInc (fun _ => 0) (-2)) ∧ mCollectGarbage none h1.2 = (.ok (), h2.2) ∧
+    MReach dv h1.2 (mExtInc (fun _ => 0) (-2)) ∧ mCollectGarbage none h1.2 = (.ok (), h2.2) ∧
     h2.2.tbl.node? 2 = some ⟨1, [1, -1]⟩ :=
   ⟨r1, eg1, by rfl, by rfl, by rfl, by rfl, by rfl, rh1, eh2, by rfl⟩
 
